@@ -165,6 +165,7 @@ theorem inv_step {s : St} (h : Inv s) (op : Op) : Inv (step s op).1 := by
   cases op with
   | q k m t => simp only [step]; split <;> first | exact h | exact inv_enqueue h _
   | m k => simp only [step]; split <;> first | exact h | exact inv_enqueue h _
+  | a k => simp only [step]; split <;> first | exact h | exact inv_enqueue h _
   | H => simp only [step]; split <;> first | exact h | exact inv_enqueue h _
   | L =>
     simp only [step]
